@@ -127,7 +127,7 @@ def lang_is_bad(lang: str):
     """True: must be flagged; False: must not; None: not prescribed (odd cases)"""
     if lang == "default":
         return False
-    m = re.search(r"\(([^()]*)\)$", lang)
+    m = re.search(r"\(([^()]*)\)$", lang)      # the last parenthesised part: "Chinese (Simplified) (zh)"
     if not m:
         return True if "(" not in lang and ")" not in lang else (True if not lang.endswith(")") else None)
     code = m.group(1)
@@ -150,7 +150,7 @@ def expected(form, sheet_names=None):
             if sim:
                 out.append(("sheet-misspelling", (key, sim), None))
     s = form.get("settings", {})
-    sh_head = sheets.get("settings", ([], []))[0]
+    sh_head = {"_".join(h.split()).lower() for h in sheets.get("settings", ([], []))[0]}     # in any case / spacing
     if "form_id" in sh_head and "id_string" in sh_head:
         # the trigger is the pair of column headers, whichever of the two cells is filled in
         out.append(("dup-id-headers", None, None))
